@@ -169,6 +169,8 @@ inductive MonOp where
   | reset
   | validate (p : AnyParams)
   | update (sender : String) (p : AnyParams)
+  /-- the same message handed to the message server directly (no `ValidateBasic` pre-check) -/
+  | updateDirect (sender : String) (p : AnyParams)
   | genesis (p : AnyParams)
   | battery (m : Mod)
   deriving Repr, Inhabited
@@ -189,6 +191,10 @@ def modelObs (s : Store) : MonOp → MonObs
     let s' := applyOp s ⟨sender, p⟩
     let q := getMod s' (modOf p)
     .update (resWord (stepUpdate s sender p)) q (verdict (validateAny q))
+  | .updateDirect sender p =>
+    let s' := applyOp s ⟨sender, p⟩
+    let q := getMod s' (modOf p)
+    .update (resWord (stepUpdateDirect s sender p)) q (verdict (validateAny q))
   | .genesis p =>
     let g := genesisAny p
     .genesis (resWord g.1) (resWord g.2) (verdict (validateAny p))
@@ -199,6 +205,7 @@ def modelObs (s : Store) : MonOp → MonObs
 def modelNext (s : Store) : MonOp → Store
   | .reset => {}
   | .update sender p => applyOp s ⟨sender, p⟩
+  | .updateDirect sender p => applyOp s ⟨sender, p⟩   -- a non-authority `stepUpdate` never stores either
   | _ => s
 
 def untagged (cs : List String) : List (String × Option String) := cs.map fun c => (c, none)
@@ -213,6 +220,9 @@ def stepFails (st : Store) (op : MonOp) (o : MonObs) : List (String × Option St
   | .update sender p, .update cls post sv =>
     if modOf post ≠ modOf p then [("parse", none)]
     else untagged (updateFails (getMod st (modOf p)) sender p cls post sv)
+  | .updateDirect sender p, .update cls post sv =>
+    if modOf post ≠ modOf p then [("parse", none)]
+    else untagged (updateFails (getMod st (modOf p)) sender p cls post sv)
   | .genesis p, .genesis _ ig pv post =>
     if modOf post ≠ modOf p then [("parse", none)] else untagged (genesisFails pv ig post)
   | .battery m, .battery panics dflt => batteryFails (getMod st m) panics dflt
@@ -223,6 +233,7 @@ def track (st : Store) (op : MonOp) (o : MonObs) : Store :=
   match op, o with
   | .reset, .reset s => s
   | .update _ p, .update _ post _ => if modOf post = modOf p then setMod st post else st
+  | .updateDirect _ p, .update _ post _ => if modOf post = modOf p then setMod st post else st
   | _, _ => st
 
 end Irismod.Spec.C16
